@@ -1,3 +1,10 @@
 package base
 
 var BuiltinClasses []string
+
+// IsBuiltinClass reports whether the configuration declares class in the
+// Builtin frame. BuiltinClasses also lists the short names of classes declared
+// in other frames, so it cannot be used to decide a class's frame.
+func IsBuiltinClass(class string) bool {
+	return DefinedClassTable[DefinedClass{frame: "Builtin", class: class}]
+}
